@@ -284,6 +284,19 @@ def run(chk):
     cases = [("tcontrol", [t]) for t, _, _ in docs]
     impl, model = chk.run_both(cases)
     chk.compare("debian-control", cases, impl, model)
+    # ParseControl (and the index parsers) take the CALLER's *bufio.Reader: whatever its buffer size (bufio.NewReaderSize with
+    # 16 ... 65536 bytes), the result is the one for the default reader - nothing read ahead is lost between the source
+    # paragraph and the binaries
+    bc, bw = [], []
+    for (c, i) in list(zip(cases, impl))[::3]:
+        for size in (b"16", b"512", b"4095", b"4096", b"65536"):
+            bc.append(("tcontrol", [c[1][0], size])); bw.append(i)
+    bi = chk.run_impl(bc)
+    chk.record("debian-control-through-a-caller-sized-bufio-reader", bc, bi)
+    for c, got, want in zip(bc, bi, bw):
+        if got != want:
+            chk.violate({"kind": "property", "case": lib.show_case(c), "impl": got[:700], "with_default_reader": want[:700],
+                         "explanation": "ParseControl on a bufio.Reader of another buffer size does not return the source and binary paragraphs of the document"})
     fc = [("tdocfile", [b"control", t]) for t, _, _ in docs[::5]]
     fr = chk.run_impl(fc)
     chk.record("control-file-parser", fc, fr, lambda c, r: r == "same")
@@ -312,6 +325,16 @@ def run(chk):
         cases = [("tindex", [kind.encode(), t]) for t, _, _ in docs]
         impl, model = chk.run_both(cases)
         chk.compare(kind, cases, impl, model)
+        bc, bw = [], []
+        for (c, i) in list(zip(cases, impl))[::4]:
+            for size in (b"16", b"4095", b"65536"):
+                bc.append(("tindex", [c[1][0], c[1][1], size])); bw.append(i)
+        bi = chk.run_impl(bc)
+        chk.record(kind + "-through-a-caller-sized-bufio-reader", bc, bi)
+        for c, got, want in zip(bc, bi, bw):
+            if got != want:
+                chk.violate({"kind": "property", "case": lib.show_case(c), "impl": got[:700], "with_default_reader": want[:700],
+                             "explanation": "an index parser on a bufio.Reader of another buffer size does not return the entries of the document"})
         for c, i, (t, exps, facts) in zip(cases, impl, docs):
             if not i.startswith("ok ["):
                 chk.violate({"kind": "property", "case": lib.show_case(c), "impl": i[:600], "explanation": "a well-formed index was rejected"}); continue
